@@ -8,6 +8,7 @@ RULE = ("transport level: the real read/write pumps of both transports over a fa
         "of transport.go scaled by a source rewrite of time.Second (factor in evidence); constants of the unscaled compiled code checked "
         "(0 < P < W, W + P <= 38 s); end to end over real sockets with the scaled transport: a raw peer that stops reading is dropped by the "
         "server and the client of a silent server reconnects, an idle library session stays up")
+RETRY_TIMING = True
 ASSUMPTIONS = ["real schedulers add latency: comparisons allow the stated slack; gorilla applies read deadlines and invokes the pong handler as documented"]
 TFILES = ["transport/c18_test.go", "transport/c17_test.go"]
 RFILES = ["root/fake_test.go", "root/c16_test.go", "root/c07_test.go", "root/peers_test.go", "root/c18_test.go", "root/c17_test.go"]
@@ -23,7 +24,7 @@ def scale_file(scale):
 
 
 def run(ctx):
-    scale = 20 if ctx.thorough else 100
+    scale = 10 if ctx.thorough else 25
     # unscaled constants
     rc0, out0, recs0 = ctx.go("internal/transport", "^TestVerifC18Transport$", ["transport/c18_test.go"], "transport", timeout=240)
     K = {}
